@@ -13,6 +13,7 @@ func checkC07(r *Run) {
 			return
 		}
 		ruleA16(r, p)
+		ruleEncStatic(r, p)
 		ruleA9Event(r, p, true)
 		ruleA13(r, p, map[string]bool{"": true}, "c")
 	}
